@@ -32,7 +32,13 @@ C04_OPS = ["load_aligned", "load_unaligned", "store_aligned", "store_unaligned",
 
 C06_OPS = [o for o in entries.OPS if o.startswith("batch_cast_to_") or o.startswith("bitwise_cast_to_")] + ["to_int", "to_float"]
 
+C05_OPS = [o for o in entries.OPS if o.split("_")[0] in ("zip", "swizzle", "compress", "expand", "extract", "insert", "slide", "rotate")]
+
+C09_OPS = ["reduce_add", "reduce_max", "reduce_min"]
+
 PROPS = {
+    "C09": dict(ops=C09_OPS, types=ALL_TYPES, design="5.10"),
+    "C05": dict(ops=C05_OPS, types=ALL_TYPES, design="5.6", optional=True),
     "C06": dict(ops=C06_OPS, types=ALL_TYPES, design="5.7"),
     "C04": dict(ops=C04_OPS, types=ALL_TYPES, design="5.5"),
     "C02": dict(ops=C02_OPS, types=FLOAT_TYPES, design="5.3"),
@@ -209,7 +215,8 @@ def run_value_property(pid, tier, seed, only_archs=None, only_ops=None, only_typ
     types = only_types or cfg["types"]
     cases = [(o, t, a) for o in ops for t in types if t in entries.OPS[o][2] for a in archs]
     flt = quick_pre_filter(pid) if tier == "quick" else thorough_filter(pid)
-    rep = check.run_cases(pid, cases, tier, seed, props_filter=flt, post_filter=quick_post_filter(pid) if tier == "quick" else None)
+    rep = check.run_cases(pid, cases, tier, seed, props_filter=flt, post_filter=quick_post_filter(pid) if tier == "quick" else None,
+                          optional_entries=cfg.get("optional", False))
     rep.notes["architectures"] = archs
     rep.notes["element_types"] = types
     rep.notes["operations"] = ops
